@@ -67,7 +67,9 @@ def goodCfg (h : Host) : Cfg :=
     probeLenient := h.lenient
     asDictSkipCatch := ["NotImplementedError"]
     asDictSkipRule := "if attrs: raise; continue"
-    parentRootGuard := true }
+    parentRootGuard := true
+    lazyBodies := []
+    existsStrictClauses := [(["PermissionError"], "raise"), (["OSError"], "return False")] }
 
 /-- the source before /repo d7107b4: the lowest-PID stop of parent() answers None without any identity probe -/
 def preRootGuardCfg (h : Host) : Cfg :=
@@ -349,7 +351,7 @@ theorem tblRead_file_ok {w : World} {st : WS} {p : Nat} {f : PFile} {x : Content
   | none => simp [hs] at h
   | some y =>
     obtain ⟨s', i⟩ := y
-    cases s' <;> cases f <;> simp [hs] at h <;> subst h <;> simp [okContent]
+    cases s' <;> cases f <;> simp [hs] at h <;> subst h <;> (try split) <;> simp [okContent]
 
 theorem tblRead_stat_ok {w : World} {st : WS} {p : Nat} {x : Content}
     (h : tblRead w st (.file p .stat) = .ok x) :
@@ -722,14 +724,14 @@ theorem wrap_safe (r : Host) (p : Nat) {α : Type} {body : M α} {Q : α → Pro
 theorem W_safe (r : Host) (name : String) (p : Nat) {α : Type} {body : M α} {Q : α → Prop}
     (hw : (goodCfg r).wrapped.contains name = true)
     (hb : Tri (ExcOK p) body Q) : Tri (PsOnly p) (W (goodCfg r) name p body) Q := by
-  unfold W; rw [if_pos hw]; exact wrap_safe r p hb
+  unfold W; rw [if_neg (by simp [goodCfg]), if_pos hw]; exact wrap_safe r p hb
 
 /-- an undecorated helper keeps its body's contract -/
 theorem W_plain (r : Host) (name : String) (p : Nat) {α : Type} {body : M α} {Q : α → Prop}
     {E : Ctx → Nat → PyExc → Prop}
     (hw : (goodCfg r).wrapped.contains name = false)
     (hb : Tri E body Q) : Tri E (W (goodCfg r) name p body) Q := by
-  unfold W; simp only [hw]; exact hb
+  unfold W; rw [if_neg (by simp [goodCfg])]; simp only [hw]; exact hb
 
 theorem tri_memo {E : Ctx → Nat → PyExc → Prop} {α : Type} (get : Cache → Option α) (set : α → Cache → Cache)
     (p : Nat) {body : M α} {Q : α → Prop}
